@@ -20,22 +20,24 @@ type SQLEvent struct {
 	Kind string // "begin", "exec", "query", "commit", "rollback", "close"
 	SQL  string
 	Tx   int // transaction number (0 = outside a transaction)
+	Conn int // pooled connection the call runs on (numbered from 1 in order of opening; "open" carries the DSN in SQL)
 }
 
 // SQLResult is the environment's answer.
 type SQLResult struct {
-	Err  string  // non-empty: the call fails with this message
-	Ints []int64 // integer columns of the single result row
-	Str  string  // string column (when the statement returns text)
+	Err   string  // non-empty: the call fails with this message
+	Ints  []int64 // integer columns of the single result row
+	Str   string  // string column (when the statement returns text)
 	IsStr bool
 }
 
 type SQLHandler func(SQLEvent) SQLResult
 
 type vxDriver struct {
-	mu      sync.Mutex
-	h       SQLHandler
-	nextTx  int
+	mu       sync.Mutex
+	h        SQLHandler
+	nextTx   int
+	nextConn int
 }
 
 var (
@@ -44,20 +46,32 @@ var (
 )
 
 // SQLOpen returns a *sql.DB whose statements go to h.
-func SQLOpen(h SQLHandler) *sql.DB {
+func SQLOpen(h SQLHandler) *sql.DB { return SQLOpenDSN(h, "") }
+
+// SQLOpenDSN is SQLOpen with the data source name the code under test built: every
+// pooled connection is opened with it (an "open" event carries it to the handler).
+func SQLOpenDSN(h SQLHandler, dsn string) *sql.DB {
 	vxDrvOnce.Do(func() { sql.Register("vxsql", vxDrv) })
 	vxDrv.mu.Lock()
 	vxDrv.h = h
 	vxDrv.nextTx = 0
+	vxDrv.nextConn = 0
 	vxDrv.mu.Unlock()
-	db, err := sql.Open("vxsql", "")
+	db, err := sql.Open("vxsql", dsn)
 	if err != nil {
 		panic(err)
 	}
 	return db
 }
 
-func (d *vxDriver) Open(name string) (driver.Conn, error) { return &vxConn{d: d}, nil }
+func (d *vxDriver) Open(name string) (driver.Conn, error) {
+	d.mu.Lock()
+	d.nextConn++
+	id := d.nextConn
+	d.mu.Unlock()
+	d.call(SQLEvent{Kind: "open", SQL: name, Conn: id})
+	return &vxConn{d: d, id: id}, nil
+}
 
 func (d *vxDriver) call(ev SQLEvent) SQLResult {
 	d.mu.Lock()
@@ -68,13 +82,14 @@ func (d *vxDriver) call(ev SQLEvent) SQLResult {
 
 type vxConn struct {
 	d  *vxDriver
+	id int
 	tx int
 }
 
 func (c *vxConn) Prepare(q string) (driver.Stmt, error) { return &vxStmt{c: c, q: q}, nil }
 func (c *vxConn) Close() error {
 	// database/sql closes its connections when the DB is closed
-	c.d.call(SQLEvent{Kind: "close"})
+	c.d.call(SQLEvent{Kind: "close", Conn: c.id})
 	return nil
 }
 func (c *vxConn) Begin() (driver.Tx, error) {
@@ -82,7 +97,7 @@ func (c *vxConn) Begin() (driver.Tx, error) {
 	c.d.nextTx++
 	id := c.d.nextTx
 	c.d.mu.Unlock()
-	r := c.d.call(SQLEvent{Kind: "begin", Tx: id})
+	r := c.d.call(SQLEvent{Kind: "begin", Tx: id, Conn: c.id})
 	if r.Err != "" {
 		return nil, errors.New(r.Err)
 	}
@@ -97,7 +112,7 @@ type vxTx struct {
 
 func (t *vxTx) Commit() error {
 	t.c.tx = 0
-	if r := t.c.d.call(SQLEvent{Kind: "commit", Tx: t.id}); r.Err != "" {
+	if r := t.c.d.call(SQLEvent{Kind: "commit", Tx: t.id, Conn: t.c.id}); r.Err != "" {
 		return errors.New(r.Err)
 	}
 	return nil
@@ -105,7 +120,7 @@ func (t *vxTx) Commit() error {
 
 func (t *vxTx) Rollback() error {
 	t.c.tx = 0
-	if r := t.c.d.call(SQLEvent{Kind: "rollback", Tx: t.id}); r.Err != "" {
+	if r := t.c.d.call(SQLEvent{Kind: "rollback", Tx: t.id, Conn: t.c.id}); r.Err != "" {
 		return errors.New(r.Err)
 	}
 	return nil
@@ -119,14 +134,14 @@ type vxStmt struct {
 func (s *vxStmt) Close() error  { return nil }
 func (s *vxStmt) NumInput() int { return -1 }
 func (s *vxStmt) Exec(args []driver.Value) (driver.Result, error) {
-	r := s.c.d.call(SQLEvent{Kind: "exec", SQL: s.q, Tx: s.c.tx})
+	r := s.c.d.call(SQLEvent{Kind: "exec", SQL: s.q, Tx: s.c.tx, Conn: s.c.id})
 	if r.Err != "" {
 		return nil, errors.New(r.Err)
 	}
 	return driver.RowsAffected(0), nil
 }
 func (s *vxStmt) Query(args []driver.Value) (driver.Rows, error) {
-	r := s.c.d.call(SQLEvent{Kind: "query", SQL: s.q, Tx: s.c.tx})
+	r := s.c.d.call(SQLEvent{Kind: "query", SQL: s.q, Tx: s.c.tx, Conn: s.c.id})
 	if r.Err != "" {
 		return nil, errors.New(r.Err)
 	}
